@@ -70,24 +70,35 @@ def check(prog, run):
             run.report(r, "%s:__DirectiveLocation__:extra(%s)" % (INTRO, l), "src/py_gql/schema/introspection.py", "%s is not a directive location" % l)
     kind_names = set(_enum_names(tk[-1]))
     rk = prog.get_func(INTRO, "_resolve_type_kind")
-    image = {n.value.value for n in own_nodes(rk.node) if isinstance(n, ast.Return) and isinstance(n.value, ast.Constant)}
-    for k in sorted(kind_names | image | SPEC_TYPE_KINDS):
-        r.instance("type kind %s" % k)
-        if not (k in kind_names and k in image and k in SPEC_TYPE_KINDS):
-            run.report(r, "%s:__TypeKind__:mismatch(%s)" % (INTRO, k), rk.where(),
-                       "type kind %s: in __TypeKind=%s, produced by _resolve_type_kind=%s, in the specification=%s" % (k, k in kind_names, k in image, k in SPEC_TYPE_KINDS))
     # kind resolver dispatch order: subclasses before base (each class tested once)
     tested = [nm for n in own_nodes(rk.node) if isinstance(n, ast.If) for names, _ in shapes.class_tests(n.test, rk.params[0]) for nm in names]
     # path form: what the resolver returns when its argument is exactly a C (independent of elif-vs-early-return and test order)
     from .. import dispatch
     hier = dispatch.Hierarchy(prog)
     pairs = {}
+    from .. import pathfeas, boolx as _bxk
+    image = set()
     for c in ("ScalarType", "ObjectType", "InterfaceType", "UnionType", "EnumType", "InputObjectType", "ListType", "NonNullType"):
         got = set()
-        for kind, st, env in dispatch.executions(hier, rk, rk.params[0], c):
-            got.add(st.value.value if kind == "return" and isinstance(st.value, ast.Constant) else ("<%s>" % kind))
+        try:
+            _evk, kexits = _bxk.walk_under(rk.node, pathfeas.decide_with_locals(hier, rk.params[0], c))
+        except ValueError as e:
+            raise AnalysisError("C15.T1: %s" % e)
+        for kind, st, env in kexits:
+            v = None
+            if kind == "return" and st.value is not None:
+                # the returned expression with this execution's locals substituted and its conditional parts decided by the atoms
+                atoms = {a: b for a, b in env.items() if a not in _bxk.META}
+                v = _bxk.path_value(env.get(_bxk.STMTS, ()), st, _bxk.path_subst(st.value, _bxk.path_env(env.get(_bxk.STMTS, ()), st)), atoms)
+            got.add(v.value if isinstance(v, ast.Constant) else ("<%s>" % kind))
+        image |= {g for g in got if isinstance(g, str) and not g.startswith("<")}
         if len(got) == 1:
             pairs[c] = got.pop()
+    for k in sorted(kind_names | image | SPEC_TYPE_KINDS):
+        r.instance("type kind %s" % k)
+        if not (k in kind_names and k in image and k in SPEC_TYPE_KINDS):
+            run.report(r, "%s:__TypeKind__:mismatch(%s)" % (INTRO, k), rk.where(),
+                       "type kind %s: in __TypeKind=%s, produced by _resolve_type_kind=%s, in the specification=%s" % (k, k in kind_names, k in image, k in SPEC_TYPE_KINDS))
     want = {"ScalarType": "SCALAR", "ObjectType": "OBJECT", "InterfaceType": "INTERFACE", "UnionType": "UNION", "EnumType": "ENUM",
             "InputObjectType": "INPUT_OBJECT", "ListType": "LIST", "NonNullType": "NON_NULL"}
     for c, k in want.items():
